@@ -384,6 +384,10 @@ func (h *scfRunner) mkBundleE(spec scfB, idx int, received bool, epoch int, seq 
 	dst := scfNode(spec.Dst) + "in"
 	if spec.Dst == 0 {
 		dst = "dtn://n0/app"
+	} else if spec.Dst != scfNoNode && idx%4 == 3 {
+		// every fourth bundle for a peer node is addressed to a group endpoint of that node: "its destination
+		// node" is the same node, direct delivery and the algorithms must treat it like a singleton endpoint
+		dst = scfNode(spec.Dst) + "~in"
 	}
 	t.life = scfLifeLong
 	if spec.Dead == 1 {
